@@ -279,8 +279,13 @@ defvjp(
 )
 defvjp(
     anp.linspace,
-    lambda ans, start, stop, num: lambda g: match_complex(start, anp.dot(anp.linspace(1.0, 0.0, num), g)),
-    lambda ans, start, stop, num: lambda g: match_complex(stop, anp.dot(anp.linspace(0.0, 1.0, num), g)),
+    # array endpoints broadcast against each other: contract the axis of the points, then undo the broadcast
+    lambda ans, start, stop, num: lambda g: match_complex(
+        start, unbroadcast(anp.tensordot(anp.linspace(1.0, 0.0, num), g, 1), anp.metadata(start))
+    ),
+    lambda ans, start, stop, num: lambda g: match_complex(
+        stop, unbroadcast(anp.tensordot(anp.linspace(0.0, 1.0, num), g, 1), anp.metadata(stop))
+    ),
 )
 
 defvjp(
